@@ -2,6 +2,14 @@
 import socket
 
 
+class HarnessHang(BaseException):
+    """raised by the scripted transport when the code under test keeps asking for data after the end of the stream was
+    signalled many times: an endless read loop (C17: never hangs).  A BaseException so that no library handler swallows it."""
+
+
+EOF_LIMIT = 2000
+
+
 class MemSock:
     def __init__(self, chunks, short_writes=None, eof=True):
         """chunks: list of bytes | 'timeout' | 'eof'; after the script: EOF (b'') if eof else timeout."""
@@ -23,6 +31,9 @@ class MemSock:
         while not self.pending:
             if not self.script:
                 if self.eof:
+                    self.eofs = getattr(self, "eofs", 0) + 1
+                    if self.eofs > EOF_LIMIT:
+                        raise HarnessHang(f"recv() called {self.eofs} times after end of stream")
                     return b""
                 raise socket.timeout("timed out")
             x = self.script.pop(0)
